@@ -563,10 +563,48 @@ def iterator_cmp(i, fr, st, pc, a, t, fn, r):
     return _ret(i, st, pc, Opaque("lexcmp", (tuple(la), tuple(lb))))
 
 
+def option_eq(i, fr, st, pc, a, t, fn, r):
+    """<Option<T> as PartialEq>::eq / ne (derived in std): same variant and, for Some, equal payloads; the payload
+    comparison is the local PartialEq impl of T (through references)"""
+    neg = fn["name"] == "ne"
+    x = i.read_ptr(st, a[0]) if isinstance(a[0], Ptr) else a[0]
+    y = i.read_ptr(st, a[1]) if isinstance(a[1], Ptr) else a[1]
+    if not (isinstance(x, Agg) and isinstance(y, Agg) and x.key == OPTION and y.key == OPTION):
+        raise Undecided("Option comparison of %r and %r" % (x, y))
+    if x.variant != y.variant:
+        return _ret(i, st, pc, wbool(neg))
+    if x.variant == 0:
+        return _ret(i, st, pc, wbool(not neg))
+    inner = ((r or fn)["args"][0].get("args") or [None])[0]
+    px, py = x.fields[0], y.fields[0]
+    while isinstance(inner, dict) and inner.get("k") == "ref":
+        inner = inner["t"]
+        if isinstance(inner, dict) and inner.get("k") == "ref":
+            px, py = i.read_ptr(st, px), i.read_ptr(st, py)
+    if not isinstance(inner, dict):
+        raise Undecided("Option comparison: payload type unknown")
+    if inner.get("k") in ("uint", "int", "bool", "char") and not isinstance(px, Ptr):
+        e = w_eq(px, py)
+        return _ret(i, st, pc, b_not(e) if neg else e)
+    if inner.get("k") in ("uint", "int", "bool", "char"):
+        e = w_eq(i.read_ptr(st, px), i.read_ptr(st, py))
+        return _ret(i, st, pc, b_not(e) if neg else e)
+    cands = [b for b, sty, tr in i.facts.trait_impl_methods("std::cmp::PartialEq") if sty.get("path") == inner.get("path") and b["name"] == "eq"]
+    if not cands or not (isinstance(px, Ptr) and isinstance(py, Ptr)):
+        raise Undecided("Option comparison with payload %s" % inner.get("s"))
+    if cands[0]["key"] in i.opaque_fns:
+        outs = i.opaque_fns[cands[0]["key"]](i, fr, [px, py], st, pc, t)
+    else:
+        outs = i.call_mir(cands[0], cands[0]["mir"], [px, py], st, dict(fr.env), fr.depth + 1, pc)
+    return [Outcome("return", o.state, o.pc, b_not(o.value) if neg else o.value) if o.kind == "return" else o for o in outs]
+
+
 def partial_ne(i, fr, st, pc, a, t, fn, r):
     """provided method PartialEq::ne = !eq, with eq resolved to the local impl of the Self type"""
     selfty = (r or fn)["args"][0]
     path = selfty.get("path")
+    if path == OPTION:
+        return option_eq(i, fr, st, pc, a, t, dict(fn, name="ne"), r)
     cands = [b for b, sty, tr in i.facts.trait_impl_methods("std::cmp::PartialEq") if sty.get("path") == path and b["name"] == "eq"]
     if not cands:
         raise Undecided("PartialEq::ne on %s" % selfty.get("s"))
@@ -1251,6 +1289,8 @@ TABLE = {
     "<std::cmp::Ordering as std::cmp::PartialEq>::ne": ordering_eq,
     "std::cmp::impls::<impl std::cmp::Ord for u64>::cmp": ord_cmp_int,
     "std::cmp::PartialEq::ne": partial_ne,
+    "<std::option::Option<T> as std::cmp::PartialEq>::eq": option_eq,
+    "<std::option::Option<T> as std::cmp::PartialEq>::ne": option_eq,
     "rand::thread_rng": thread_rng,
     "<rand::prelude::ThreadRng as rand::RngCore>::next_u64": next_u64,
     "core::slice::index::<impl std::ops::IndexMut<I> for [T]>::index_mut": index_mut_range,
@@ -2605,6 +2645,8 @@ TABLE.update({
     "std::iter::Iterator::any": generic_all_any,
     "std::iter::Iterator::collect": it_collect_typed,
     "std::fmt::Write::write_fmt": string_write_fmt,
+    "std::string::String::with_capacity": string_new,       # the capacity is not observable
+    "std::string::String::reserve": lambda i, fr, st, pc, a, t, fn, r: _ret(i, st, pc, Agg("tuple", None, 0, [])),
     "<std::string::String as std::fmt::Write>::write_str": string_write_str,
     "<std::string::String as std::fmt::Write>::write_fmt": string_write_fmt,
     "<std::string::String as std::convert::From<&str>>::from": string_from,
@@ -4052,3 +4094,31 @@ def _int_dispatch(path):
     return h
 
 PREFIX = []
+
+
+def localkey_with(i, fr, st, pc, a, t, fn, r):
+    """LocalKey::with(f): f(&storage) where the storage of this thread lives in the abstract state under the key's
+    path (so it persists from one call to the next in a history on one thread) and is created on first use by the
+    init function the `thread_local!` macro generates"""
+    key, clos = a[0], a[1]
+    if isinstance(key, Ptr):
+        key = i.read_ptr(st, key)
+    if not (isinstance(key, Opaque) and key.kind == "localkey"):
+        raise Undecided("LocalKey::with on %r" % (key,))
+    cell = "tls:" + key.data[1]
+    if cell not in st.mem:
+        init = i.facts.body(key.data[1] + "::__rust_std_internal_init_fn")
+        if init is None or init.get("mir") is None:
+            raise Undecided("thread_local initialiser of %s" % key.data[0])
+        outs = i.call_mir(init, init["mir"], [], st, dict(fr.env), fr.depth + 1, pc)
+        if len(outs) != 1 or outs[0].kind != "return":
+            raise Undecided("thread_local initialiser of %s has %d outcomes" % (key.data[0], len(outs)))
+        st = outs[0].state
+        st.mem[cell] = outs[0].value
+        pc = outs[0].pc
+    return call_closure(i, fr, st, pc, clos, [Ptr(cell, ())])
+
+
+TABLE.update({
+    "std::thread::LocalKey::<T>::with": localkey_with,
+})
